@@ -11,6 +11,7 @@
 -/
 import Rl.Editor
 import Rl.Lemmas.Undo
+import Rl.Lemmas.EditorLoops
 open Rl
 
 /-! ### the stack is an exact log -/
@@ -426,19 +427,268 @@ theorem C05_primitives_faithful (S : Segmenter) (U : UData) (lb0 : LB) :
       rw [applyFwd_replace.mpr ⟨x', z, e1, e2, rfl⟩]
     · cases h
 
-/-- Full statement (NOT proved): aborting an incremental search or a completion leaves line, undo stack
-    and group level as before the command.  `C05_truncate_restores` (with `C05_ops_shape`) is its
-    log-level core.  D47 (records of the sub-loop left in the log when a key inside it had left vi insert
-    mode) is repaired — regression examples below.  As written the statement still fails in vi mode, for a
-    benign reason: the insert session's open `Begin` is gone after the abort because the session was left
-    (first example below); the vi clause should read "the stack before minus the open `Begin`s that leaving
-    insert mode closed".  In emacs mode `next_cmd` does not touch the log and the statement is expected to
-    hold as written. -/
+/-- Full statement, both modes: aborting an incremental search or a completion leaves line, undo stack
+    and group level as before the command.  The emacs clause (stack and level) is PROVED on the editor
+    model: `C05_abort_transparent_emacs`.  As written, for both modes, it is false
+    (`C05_abort_transparent_vi_false`), for a benign reason: in vi mode a key inside the sub-loop can
+    leave insert mode, which closes the insert session's open group; the vi clause should read "the
+    stack before minus the open `Begin`s that leaving insert mode closed" and is not proved.  D47 and D48
+    (records of the sub-loop left behind / the closed session re-opened by the abort) are repaired. -/
 def C05_abort_transparent_statement : Prop :=
   ∀ (S : Segmenter) (U : UData) (cfg : EdCfg) (s s' : Ed) (fuel : Nat),
     (reverseIncrementalSearch S U cfg fuel s = .ok (none, s') ∨
      (completeLine S U cfg fuel s = .ok (none, s') ∧ cfg.listCompletion = false)) →
     s'.line.buf = s.line.buf ∧ s'.changes.undos = s.changes.undos ∧ s'.changes.level = s.changes.level
+
+/-! ### abort transparency in emacs mode -/
+
+open EM
+
+/-- the log of a sub-loop: `begin` of the log before it, then notifications and nested `begin`s -/
+def SubLog (S : Segmenter) (U : UData) (c0 c : Changeset) : Prop :=
+  ∃ ops : List GOp, c = ops.foldl (GOp.run S U.alnum) c0.begin.1
+
+theorem SubLog.start (S : Segmenter) (U : UData) (c0 : Changeset) : SubLog S U c0 c0.begin.1 := ⟨[], rfl⟩
+
+theorem SubLog.begin {S : Segmenter} {U : UData} {c0 c : Changeset} (h : SubLog S U c0 c) : SubLog S U c0 c.begin.1 := by
+  obtain ⟨ops, rfl⟩ := h
+  exact ⟨ops ++ [.begin], by simp [List.foldl_append, GOp.run]⟩
+
+theorem SubLog.notifs {S : Segmenter} {U : UData} {c0 c : Changeset} (h : SubLog S U c0 c) (ns : List Notif) :
+    SubLog S U c0 (c.onNotifs S U.alnum ns) := by
+  obtain ⟨ops, rfl⟩ := h
+  refine ⟨ops ++ ns.map .notif, ?_⟩
+  rw [List.foldl_append]
+  generalize ops.foldl (GOp.run S U.alnum) c0.begin.1 = c
+  unfold Changeset.onNotifs
+  induction ns generalizing c with
+  | nil => rfl
+  | cons n ns ih => simp only [List.foldl_cons, List.map_cons]; exact ih _
+
+/-- the mark of the sub-loop stays below the height of its log, every group is not closed, and cutting
+    back to the mark restores stack and level -/
+theorem SubLog.facts {S : Segmenter} {U : UData} {c0 c : Changeset} (h : SubLog S U c0 c) :
+    c0.undos.length < c.undos.length ∧ c.level ≠ 0 ∧
+    (c.truncateClosed c0.undos.length).undos = c0.undos ∧ (c.truncateClosed c0.undos.length).level = c0.level := by
+  obtain ⟨ops, rfl⟩ := h
+  obtain ⟨extra, hu, _, hl⟩ := C05_ops_shape S U.alnum c0 ops c0.begin.1
+    ⟨[], rfl, rfl, by simp [Changeset.begin, begins]⟩
+  have hr := C05_truncate_restores S U.alnum c0 ops
+  have hlv : (ops.foldl (GOp.run S U.alnum) c0.begin.1).level ≠ 0 := by rw [hl]; omega
+  refine ⟨by rw [hu]; simp; omega, hlv, ?_, ?_⟩
+  · unfold Changeset.truncateClosed
+    have : ((ops.foldl (GOp.run S U.alnum) c0.begin.1).level == 0) = false := by simpa using hlv
+    rw [this]; exact hr.1
+  · unfold Changeset.truncateClosed
+    have : ((ops.foldl (GOp.run S U.alnum) c0.begin.1).level == 0) = false := by simpa using hlv
+    rw [this]; exact hr.2
+
+section
+variable (S : Segmenter) (U : UData) (cfg : EdCfg)
+
+/-- **`next_cmd` in emacs mode and the undo log**: it leaves the log alone, or (a `Replace` command,
+    bound by the application) opens one group -/
+theorem wp_nextCmd_emacs_changes (hvi : cfg.vi = false) {fuel : Nat} {sea iep : Bool} {s : Ed} {Q : Cmd → Ed → Prop}
+    (hq : ∀ c s', (s'.changes = s.changes ∨ s'.changes = s.changes.begin.1) → Q c s') :
+    wp (nextCmd S U cfg fuel sea iep) Q (fun _ _ => True) s := by
+  have tail : ∀ (key : KeyEvent) (s1 : Ed), s1.changes = s.changes →
+      wp (do
+        let inCommand ← (fun s => .ok (s.inp.inputMode == .command, s) : EM Bool)
+        let cmd ← emacs S U cfg fuel key
+        match cmd with
+        | .replace _ _ => do let _ ← changesBegin; pure cmd
+        | _ => pure cmd) Q (fun _ _ => True) s1 := by
+    intro key s1 h1
+    rw [wp_bind', wp_read, wp_bind]
+    refine wp_mono ((keeps_emacs S U cfg fuel key).wp s1) ?_ (fun _ _ _ => trivial)
+    intro cmd s2 h2
+    have hc2 : s2.changes = s.changes := by rw [(Ed.core_eq h2).2.2.1]; exact h1
+    split
+    · rw [wp_bind, wp_changesBegin, wp_pure]
+      exact hq _ _ (Or.inr (by show s2.changes.begin.1 = _; rw [hc2]))
+    · rw [wp_pure]; exact hq _ _ (Or.inl hc2)
+  unfold nextCmd waitForInput
+  simp only [hvi, Bool.not_false, Bool.false_eq_true, if_false, if_true]
+  split <;>
+  · rw [wp_bind]
+    refine wp_mono ((keeps_nextKey _).wp s) ?_ (fun _ _ _ => trivial)
+    intro key s1 h1
+    have t := tail key s1 (Ed.core_eq h1).2.2.1
+    simp only [wp_bind, wp_bind'] at t ⊢
+    exact t
+
+/-- what an abort must re-establish -/
+def LogAs (c0 : Changeset) (r : Option Cmd) (s' : Ed) : Prop :=
+  r = none → s'.changes.undos = c0.undos ∧ s'.changes.level = c0.level
+
+theorem logAs_truncate {c0 : Changeset} {s : Ed} (h : SubLog S U c0 s.changes) :
+    LogAs c0 none { s with changes := s.changes.truncateClosed c0.undos.length } :=
+  fun _ => ⟨h.facts.2.2.1, h.facts.2.2.2⟩
+
+/-- incremental search, emacs mode: whatever is typed inside it, an aborted search (result `none`)
+    leaves stack and level of the undo log as they were before its `begin` -/
+theorem searchLoop_log (hvi : cfg.vi = false) (c0 : Changeset) (backup : Text) (backupPos : Nat) :
+    ∀ (fuel : Nat) (sb : Text) (hi : Nat) (d : Dir) (succ : Bool) (s : Ed), SubLog S U c0 s.changes →
+      wp (searchLoop S U cfg c0.undos.length backup backupPos fuel sb hi d succ) (LogAs c0) (fun _ _ => True) s := by
+  intro fuel
+  induction fuel with
+  | zero => intro sb hi d succ s _; unfold searchLoop; exact trivial
+  | succ fuel ih =>
+    intro sb hi d succ s hs
+    unfold searchLoop
+    simp only [wp_bind]
+    refine wp_refreshPromptAndLine S U cfg (fun s2 hc2 => ?_) (fun _ _ _ => trivial)
+    have hs2 : SubLog S U c0 s2.changes := by rw [(Ed.core_eq hc2).2.2.1]; exact hs
+    refine wp_nextCmd_emacs_changes S U cfg hvi (fun cmd s3 h3 => ?_)
+    have hs3 : SubLog S U c0 s3.changes := by
+      rcases h3 with h3 | h3
+      · rw [h3]; exact hs2
+      · rw [h3]; exact hs2.begin
+    rw [wp_lowerMark, Nat.min_eq_left (Nat.le_of_lt hs3.facts.1)]
+    have hds : ∀ (sb : Text) (hi : Nat) (d : Dir),
+        wp (match (memHist cfg).search sb hi d with
+            | some (idx, entry, pos) => do
+              lb S U (LB.update S U entry pos)
+              searchLoop S U cfg c0.undos.length backup backupPos fuel sb idx d true
+            | none => searchLoop S U cfg c0.undos.length backup backupPos fuel sb hi d false)
+          (LogAs c0) (fun _ _ => True) s3 := by
+      intro sb hi d
+      cases (memHist cfg).search sb hi d with
+      | none => exact ih _ _ _ _ s3 hs3
+      | some r =>
+        obtain ⟨idx, entry, pos⟩ := r
+        simp only [wp_bind]
+        refine wp_lb_any S U (fun a l ns h => ?_) trivial
+        exact ih _ _ _ _ _ (hs3.notifs ns)
+    split
+    · exact hds _ _ _
+    · exact ih _ _ _ _ s3 hs3
+    · split
+      · exact hds _ _ _
+      · exact ih _ _ _ _ s3 hs3
+    · split
+      · exact hds _ _ _
+      · exact ih _ _ _ _ s3 hs3
+    · simp only [wp_bind]
+      refine wp_lb_any S U (fun a l ns h => ?_) trivial
+      refine wp_refreshLine S U cfg (fun s4 hc4 => ?_) (fun _ _ _ => trivial)
+      simp only [truncateChanges, wp_modify, wp_pure]
+      have hs4 : SubLog S U c0 s4.changes := by rw [(Ed.core_eq hc4).2.2.1]; exact hs3.notifs ns
+      exact logAs_truncate S U hs4
+    · simp only [wp_bind]
+      refine wp_refreshLine S U cfg (fun s4 hc4 => ?_) (fun _ _ _ => trivial)
+      simp only [wp_changesEnd, wp_pure]
+      intro h; cases h
+
+/-- circular completion, emacs mode: the same -/
+theorem completeCircular_log (hvi : cfg.vi = false) (c0 : Changeset) (start : Nat) (cands : List Text)
+    (backup : Text) (backupPos : Nat) :
+    ∀ (fuel i : Nat) (s : Ed), SubLog S U c0 s.changes →
+      wp (completeCircular S U cfg start cands c0.undos.length backup backupPos fuel i) (LogAs c0) (fun _ _ => True) s := by
+  intro fuel
+  induction fuel with
+  | zero => intro i s _; unfold completeCircular; exact trivial
+  | succ fuel ih =>
+    intro i s hs
+    unfold completeCircular
+    have rest : ∀ s1 : Ed, SubLog S U c0 s1.changes →
+        wp (do
+          refreshLine S U cfg
+          let cmd ← nextCmd S U cfg fuel true true
+          let mark ← lowerMark c0.undos.length
+          match cmd with
+          | .complete => completeCircular S U cfg start cands mark backup backupPos fuel (compNext cands.length i)
+          | .completeBackward => completeCircular S U cfg start cands mark backup backupPos fuel (compPrev cands.length i)
+          | .abort => do
+            if i < cands.length then do
+              lb S U (LB.update S U backup backupPos)
+              refreshLine S U cfg
+            truncateChanges mark
+            pure none
+          | _ => do
+            let _ ← changesEnd
+            pure (some cmd)) (LogAs c0) (fun _ _ => True) s1 := by
+      intro s1 hs1
+      simp only [wp_bind]
+      refine wp_refreshLine S U cfg (fun s2 hc2 => ?_) (fun _ _ _ => trivial)
+      have hs2 : SubLog S U c0 s2.changes := by rw [(Ed.core_eq hc2).2.2.1]; exact hs1
+      refine wp_nextCmd_emacs_changes S U cfg hvi (fun cmd s3 h3 => ?_)
+      have hs3 : SubLog S U c0 s3.changes := by
+        rcases h3 with h3 | h3
+        · rw [h3]; exact hs2
+        · rw [h3]; exact hs2.begin
+      rw [wp_lowerMark, Nat.min_eq_left (Nat.le_of_lt hs3.facts.1)]
+      split
+      · exact ih _ s3 hs3
+      · exact ih _ s3 hs3
+      · split
+        · simp only [wp_bind]
+          refine wp_lb_any S U (fun a l ns h => ?_) trivial
+          refine wp_refreshLine S U cfg (fun s4 hc4 => ?_) (fun _ _ _ => trivial)
+          simp only [truncateChanges, wp_modify, wp_pure]
+          have hs4 : SubLog S U c0 s4.changes := by rw [(Ed.core_eq hc4).2.2.1]; exact hs3.notifs ns
+          exact logAs_truncate S U hs4
+        · simp only [wp_pure, wp_bind, truncateChanges, wp_modify]
+          exact logAs_truncate S U hs3
+      · simp only [wp_bind, wp_changesEnd, wp_pure]
+        intro h; cases h
+    simp only []
+    by_cases hlt : i < cands.length
+    · rw [if_pos hlt]
+      have hci : cands[i]? = some cands[i] := by simp [hlt]
+      rw [hci]
+      simp only [wp_bind, wp_getLine]
+      refine wp_lb_any S U (fun a l ns h => ?_) trivial
+      have t := rest { s with line := l, changes := s.changes.onNotifs S U.alnum ns } (hs.notifs ns)
+      simp only [wp_bind] at t ⊢
+      exact t
+    · rw [if_neg hlt]
+      simp only [wp_bind]
+      refine wp_lb_any S U (fun a l ns h => ?_) trivial
+      have t := rest { s with line := l, changes := s.changes.onNotifs S U.alnum ns } (hs.notifs ns)
+      simp only [wp_bind] at t ⊢
+      exact t
+
+theorem reverseIncrementalSearch_log (hvi : cfg.vi = false) (fuel : Nat) (s : Ed) :
+    wp (reverseIncrementalSearch S U cfg fuel) (LogAs s.changes) (fun _ _ => True) s := by
+  unfold reverseIncrementalSearch
+  split
+  · rw [wp_pure]; exact fun _ => ⟨rfl, rfl⟩
+  · simp only [wp_bind, wp_changesBegin, wp_getLine]
+    exact searchLoop_log S U cfg hvi s.changes _ _ fuel _ _ _ _ _ (SubLog.start S U s.changes)
+
+theorem completeLine_log (hvi : cfg.vi = false) (hl : cfg.listCompletion = false) (fuel : Nat) (s : Ed) :
+    wp (completeLine S U cfg fuel) (LogAs s.changes) (fun _ _ => True) s := by
+  unfold completeLine
+  simp only [wp_bind, wp_getLine, hl, Bool.not_false, if_true]
+  split
+  · rw [wp_pure]; exact fun _ => ⟨rfl, rfl⟩
+  · simp only [wp_bind, wp_changesBegin]
+    exact completeCircular_log S U cfg hvi s.changes _ _ _ _ fuel 0 _ (SubLog.start S U s.changes)
+
+end
+
+/-- **Abort transparency, emacs mode.**  For EVERY key sequence typed inside it, an incremental search
+    that is aborted, or a circular completion that is aborted (or finds no candidate), hands back
+    `None` with the undo log — stack and group level — exactly as it was when the command started.
+    (`next_cmd` leaves the log alone in emacs mode, or opens one group for a bound `Replace`; the
+    sub-loop's log is `begin` of the log before plus notifications and nested begins; its mark never
+    sinks (`lowerMark`); `C05_truncate_restores`.)  That the line and the cursor are the backed-up ones
+    is `searchLoop_abort` / `completeCircular_abort` (C08, C14). -/
+theorem C05_abort_transparent_emacs (S : Segmenter) (U : UData) (cfg : EdCfg) (hvi : cfg.vi = false)
+    (s s' : Ed) (fuel : Nat)
+    (h : reverseIncrementalSearch S U cfg fuel s = .ok (none, s') ∨
+         (completeLine S U cfg fuel s = .ok (none, s') ∧ cfg.listCompletion = false)) :
+    s'.changes.undos = s.changes.undos ∧ s'.changes.level = s.changes.level := by
+  rcases h with h | ⟨h, hl⟩
+  · have w := reverseIncrementalSearch_log S U cfg hvi fuel s
+    unfold wp at w
+    rw [h] at w
+    exact w rfl
+  · have w := completeLine_log S U cfg hvi hl fuel s
+    unfold wp at w
+    rw [h] at w
+    exact w rfl
 
 /-! ### D47 (repaired): regression examples -/
 
@@ -477,10 +727,30 @@ def C05_wit_state : Ed :=
     restoring the backup pushed.  (Before the repair `[Delete(0, "xy")]` stayed and the next Undo gave
     "xyxy".)  The insert session's `Begin` is gone because the session WAS left: in vi mode the log
     after an abort is the log before it minus the open `Begin`s that leaving insert mode closed. -/
-example :
+theorem C05_vi_abort_closes_session :
     (reverseIncrementalSearch C05_wit_seg C05_wit_udata C05_wit_cfg 4 C05_wit_state).toOption.map
       (fun r => (r.1.isNone, r.2.line.buf, r.2.changes.undos, r.2.changes.level)) =
     some (true, ['x', 'y'], [], 0) := by decide +kernel
+
+/-- **`C05_abort_transparent_statement` as written is false in vi mode** — for a benign reason (witness
+    above): the insert session's open `Begin` is gone after the abort because a key inside the search
+    LEFT insert mode.  The emacs clause is `C05_abort_transparent_emacs`. -/
+theorem C05_abort_transparent_vi_false : ¬ C05_abort_transparent_statement := by
+  intro h
+  have w := C05_vi_abort_closes_session
+  cases hr : reverseIncrementalSearch C05_wit_seg C05_wit_udata C05_wit_cfg 4 C05_wit_state with
+  | error e => rw [hr] at w; cases w
+  | ok r =>
+    obtain ⟨o, s'⟩ := r
+    rw [hr] at w
+    simp only [Except.toOption, Option.map, Option.some.injEq, Prod.mk.injEq] at w
+    obtain ⟨ho, _, hu, _⟩ := w
+    cases o with
+    | some c => cases ho
+    | none =>
+      have h2 := (h C05_wit_seg C05_wit_udata C05_wit_cfg C05_wit_state s' 4 (Or.inl hr)).2.1
+      rw [hu] at h2
+      cases h2
 
 /-- **D47 regression, a whole read**: initial text "xy"; Alt-i, Ctrl-R, Alt-X, Ctrl-G, `u`, Enter.  The
     Undo now does what it does without the search in between (`Alt-i u`): it takes back the initial
